@@ -15,7 +15,7 @@ pub fn meta() -> PropertyMeta {
     PropertyMeta {
         id: "C10",
         level: "exploration",
-        rule: "successful messages by construction: 1..6 units on a fixed tree, any interleaving of commands and queries, each query responding with 1..5 data of random kinds (integers, bool, strings with quotes/separators/NL, blocks, character and expression data) and 0..2 response headers, all seven message endings (end of input, NL, white space, white space + NL, trailing ';', ';' + NL, ';' + white space), white space around ';' and ','. Oracle: expected buffer assembled independently from the plans (independent encoder per datum). Compared for Vec<u8> and ArrayVec<u8, 4096>. Added (fixed cases): 2^16 +- 1 data elements in one response unit, blocks of 10^k +- 1 bytes up to 10^7, blocks and strings ending in NL / CR / ';', lists handed over as ONE datum (Vec / ArrayVec of character data) with every pattern of empty and non-empty items up to 4 items, alone and between other data. Non-trivial: at least two queries with a command between or after them, or an ending other than plain end of input.",
+        rule: "successful messages by construction: 1..6 units on a fixed tree, any interleaving of commands and queries, each query responding with 1..5 data of random kinds (integers, bool, strings with quotes/separators/NL, blocks, character and expression data) and 0..2 response headers, all seven message endings (end of input, NL, white space, white space + NL, trailing ';', ';' + NL, ';' + white space), white space around ';' and ','. Oracle: expected buffer assembled independently from the plans (independent encoder per datum). Compared for Vec<u8> and ArrayVec<u8, 4096>. Added (fixed cases): 2^16 +- 1 data elements in one response unit, blocks of 10^k +- 1 bytes up to 10^7, blocks and strings ending in NL / CR / ';', lists handed over as ONE datum (Vec / ArrayVec of character data) with every pattern of empty and non-empty items up to 4 items, alone and between other data. Now and then the first response header starts with '*' (a common command header in a learn string). Non-trivial: at least two queries with a command between or after them, or an ending other than plain end of input.",
         assumptions: &["every query emits at least one datum (a query that writes nothing is outside the property's quantifier)"],
         run,
     }
